@@ -1,22 +1,29 @@
 ---------------------------- MODULE CertAuth ----------------------------
-(* Path-based certificate rules (middleware.CertificateAuth) composed with what the static
-   handler serves for the same request (C05).  Pure function over a fixed capsule.          *)
+(* Path-based certificate rules (middleware.CertificateAuth + ServerConfig.get_certificate_auth_config)
+   composed with what the static handler serves for the same request (C05).  Pure function over a
+   fixed capsule; TLC enumerates (rule list, request path spelling, certificate) and evaluates once.
+
+   capsule:  / {index.gmi, pub.gmi, app/ {index.gmi, secret.gmi, public/ {index.gmi, open.gmi}},
+                admin/ {index.gmi, panel.gmi}}                                                         *)
 EXTENDS Naturals, Sequences, FiniteSets, TLC
-CONSTANTS MaxSegs, RuleLists, Certs,
-          DevMatchRawPath,          \* current code: rule prefix compared with the raw URL path (str.startswith)
-          DevEmptyListMeansNoList   \* current config layer: allowed_fingerprints = [] becomes "no list"
-\* capsule:  / {index.gmi, pub.gmi, app/ {index.gmi, secret.gmi, public/ {index.gmi, open.gmi}}, admin/ {index.gmi, panel.gmi}}
+CONSTANTS MaxSegs, SegAlphabet, RuleLists, Certs,
+          DevMatchRawPath,          \* deviation: rule prefix compared with the raw URL path (str.startswith)
+          DevEmptyListMeansNoList   \* deviation: configuration layer turns allowed_fingerprints = [] into "no list"
 DirPaths == { <<>>, <<"app">>, <<"app", "public">>, <<"admin">> }
 FileNames == [ d \in DirPaths |-> CASE d = <<>> -> {"index.gmi", "pub.gmi"} [] d = <<"app">> -> {"index.gmi", "secret.gmi"}
                                    [] d = <<"app", "public">> -> {"index.gmi", "open.gmi"} [] d = <<"admin">> -> {"index.gmi", "panel.gmi"} ]
-SegAlphabet == {"", ".", "..", "app", "public", "admin", "secret.gmi", "open.gmi", "panel.gmi", "index.gmi", "pub.gmi", "x"}
 Paths == UNION { [1..n -> SegAlphabet] : n \in 0..MaxSegs }
 NoList == [has |-> FALSE, set |-> {}]
 List(S) == [has |-> TRUE, set |-> S]
-\* a rule: [prefix: Seq of segments (always meant with a trailing slash), require: BOOLEAN, fps: NoList or List(S)]
+\* a rule: [prefix: Seq of segments (written with a trailing slash), require: BOOLEAN, fps: NoList or List(S)]
 VARIABLES rules, path, trailing, cert, out
 vars == <<rules, path, trailing, cert, out>>
-\* ---- what the handler serves: lexical resolution (no links in this capsule) ------------------
+\* percent-decoding of a token into decoded segments
+Dec(t) == CASE t = "%2e%2e" -> <<"..">> [] t = "%2E" -> <<".">> [] t = "app%2fsecret.gmi" -> <<"app", "secret.gmi">>
+            [] t = "%61pp" -> <<"app">> [] OTHER -> <<t>>
+RECURSIVE Flat(_)
+Flat(p) == IF p = <<>> THEN <<>> ELSE Dec(Head(p)) \o Flat(Tail(p))
+\* ---- what the handler serves: resolution of the decoded path below the document root ------------------
 RECURSIVE Norm(_, _)
 Norm(segs, acc) == IF segs = <<>> THEN acc
    ELSE LET h == Head(segs) IN
@@ -25,36 +32,45 @@ Norm(segs, acc) == IF segs = <<>> THEN acc
                                ELSE Norm(Tail(segs), SubSeq(acc, 1, Len(acc) - 1)))
         ELSE Norm(Tail(segs), Append(acc, h))
 Served ==    \* location (sequence of segments) of the file whose content is delivered, or <<"-none-">>
-  LET n == Norm(path, <<>>) IN
+  LET n == Norm(Flat(path), <<>>) IN
   IF n \in DirPaths THEN Append(n, "index.gmi")
   ELSE IF Len(n) > 0 /\ SubSeq(n, 1, Len(n) - 1) \in DirPaths /\ n[Len(n)] \in FileNames[SubSeq(n, 1, Len(n) - 1)] THEN n
   ELSE <<"-none-">>
+\* the middleware's canonical path: ".." at the root is ignored (it cannot leave "/")
+RECURSIVE NormAuth(_, _)
+NormAuth(segs, acc) == IF segs = <<>> THEN acc
+   ELSE LET h == Head(segs) IN
+        IF h = "" \/ h = "." THEN NormAuth(Tail(segs), acc)
+        ELSE IF h = ".." THEN NormAuth(Tail(segs), IF acc = <<>> THEN <<>> ELSE SubSeq(acc, 1, Len(acc) - 1))
+        ELSE NormAuth(Tail(segs), Append(acc, h))
 \* ---- rule evaluation ----------------------------------------------------------------------------
 IsPrefixSeq(p, s) == Len(p) <= Len(s) /\ SubSeq(s, 1, Len(p)) = p
 RECURSIVE First(_, _)
 First(rs, loc) == IF rs = <<>> THEN [found |-> FALSE] ELSE IF IsPrefixSeq(Head(rs).prefix, loc) THEN [found |-> TRUE, r |-> Head(rs)] ELSE First(Tail(rs), loc)
 Eff(r) == IF DevEmptyListMeansNoList /\ r.fps.has /\ r.fps.set = {} THEN NoList ELSE r.fps
-JudgeWith(m, fps) == IF ~m.found THEN "deliver"
-            ELSE IF m.r.require /\ cert = "none" THEN "60"
-            ELSE IF fps.has THEN (IF cert = "none" THEN "60" ELSE IF cert \notin fps.set THEN "61" ELSE "deliver")
+JudgeWith(m, fps, c) == IF ~m.found THEN "deliver"
+            ELSE IF m.r.require /\ c = "none" THEN "60"
+            ELSE IF fps.has THEN (IF c = "none" THEN "60" ELSE IF c \notin fps.set THEN "61" ELSE "deliver")
             ELSE "deliver"
-Judge(m)    == JudgeWith(m, IF m.found THEN Eff(m.r) ELSE NoList)      \* what the running server applies
-JudgeRef(m) == JudgeWith(m, IF m.found THEN m.r.fps ELSE NoList)       \* what was written in the configuration
-\* what the policy says about the resource (the property's reference)
-Policy == JudgeRef(First(rules, Served))
+Judge(m)    == JudgeWith(m, IF m.found THEN Eff(m.r) ELSE NoList, cert)      \* what the running server applies
+JudgeRef(m, c) == JudgeWith(m, IF m.found THEN m.r.fps ELSE NoList, c)      \* what was written in the configuration
+\* what the policy says about a resource at location loc for certificate c (the property's reference)
+PolicyAt(loc, c) == JudgeRef(First(rules, loc), c)
+Policy == PolicyAt(Served, cert)
 \* what the middleware decides: on the canonical request path (design) or on the raw one (deviation)
 RawCovers(p) ==     \* str.startswith("/"+"/".join(prefix)+"/") on the raw path "/"+"/".join(path) [+ "/"]
   /\ Len(p) <= Len(path) /\ SubSeq(path, 1, Len(p)) = p
   /\ (p = <<>> \/ Len(path) > Len(p) \/ trailing)           \* the raw path continues with "/" after the prefix
 RECURSIVE FirstRaw(_)
 FirstRaw(rs) == IF rs = <<>> THEN [found |-> FALSE] ELSE IF RawCovers(Head(rs).prefix) THEN [found |-> TRUE, r |-> Head(rs)] ELSE FirstRaw(Tail(rs))
+\* the canonical path covers a directory by its own prefix ("/app" is covered by "/app/")
 Gate == IF DevMatchRawPath THEN Judge(FirstRaw(rules))
-        ELSE Judge(First(rules, IF Norm(path, <<>>) \in DirPaths THEN Append(Norm(path, <<>>), "index.gmi") ELSE Norm(path, <<>>)))
+        ELSE Judge(First(rules, NormAuth(Flat(path), <<>>)))
 Result == IF Gate # "deliver" THEN Gate ELSE IF Served = <<"-none-">> THEN "51" ELSE "deliver"
 Init == rules \in RuleLists /\ path \in Paths /\ trailing \in BOOLEAN /\ cert \in Certs \cup {"none"} /\ out = "pending"
 Eval == out = "pending" /\ out' = Result /\ UNCHANGED <<rules, path, trailing, cert>>
 Spec == Init /\ [][Eval]_vars
-\* ---- property (C05) ----
+\* ---- properties (C05) ----
 AppliedToServed == out = "deliver" => Policy = "deliver"
 RefusalIs6x == (out # "pending" /\ Served # <<"-none-">> /\ Policy # "deliver") => out = Policy
 =============================================================================
